@@ -494,6 +494,12 @@ pub fn main(args: &[String]) -> i32 {
     let mut out = std::io::BufWriter::new(stdout.lock());
     for i in 0..n {
         let (tab, text, tag) = match family.as_str() {
+            "mirror-float" | "mirror-val" => {
+                let t = real_table(if family == "mirror-float" { "float" } else { "val" });
+                let n = rng.random_range(2..=8);
+                let (toks, _) = gen_toks(&mut rng, &t, n, 3, 0, 0.15, 0.1, true);
+                (t, to_text(&mut rng, &toks, 1.0), family.clone())
+            }
             "dmg-float" | "dmg-val" => {
                 let t = real_table(if family == "dmg-float" { "float" } else { "val" });
                 // the value table's `.`/if/else and comparison chains are fine; its literals must be plain
@@ -540,7 +546,10 @@ pub fn main(args: &[String]) -> i32 {
                 (t, s, format!("rnd{nops}"))
             }
         };
-        let rec = json!({"table": table_to_json(&tab), "text": cps(&text), "expect": "any", "tag": tag});
+        let mut rec = json!({"table": table_to_json(&tab), "text": cps(&text), "expect": "any", "tag": tag});
+        if family.ends_with("-val") {
+            rec["semtab"] = json!("val");
+        }
         let _ = writeln!(out, "{rec}");
     }
     0
